@@ -2,15 +2,16 @@
 # usage: tools/mutant.sh <patch.diff> [property ...]
 # Applies the patch to a scratch copy of /repo (outside /repo and /verif), runs the given checks (default: all
 # registered in MANIFEST.json) against it with a scratch evidence dir, prints the alarms, removes the copy.
+# env: CVBIN (frozen checker binary), TIER, BASE (commit of /repo to apply to, default HEAD), KF (known-findings file).
 set -u
 PATCH="$(readlink -f "$1")"; shift
 VERIF="$(cd "$(dirname "$0")/.." && pwd)"
 S="$(mktemp -d /tmp/mutant.XXXXXX)"
 trap 'rm -rf "$S"' EXIT
 mkdir -p "$S/repo" "$S/verif"
-(cd /repo && git archive HEAD) | tar -x -C "$S/repo"
+(cd /repo && git archive "${BASE:-HEAD}") | tar -x -C "$S/repo"
 if ! (cd "$S/repo" && git init -q . 2>/dev/null && git apply "$PATCH"); then echo "PATCH DOES NOT APPLY"; exit 2; fi
-cp "$VERIF/known_findings.json" "$S/verif/"
+cp "${KF:-$VERIF/known_findings.json}" "$S/verif/known_findings.json"
 PROPS="$*"
 [ -z "$PROPS" ] && PROPS="$(python3 -c "import json;print(' '.join(c['property_id'] for c in json.load(open('$VERIF/MANIFEST.json'))['checks']))")"
 [ -n "${CVBIN:-}" ] || (cd "$VERIF/checker" && GOFLAGS=-mod=mod GOPROXY=off GOSUMDB=off GOTOOLCHAIN=local go build -o ../bin/cvcheck ./cmd/cvcheck) || exit 2
